@@ -114,10 +114,13 @@ func c06Jobs(tier string, seed int64) []string {
 		if tier == "thorough" {
 			add("numcpu=1", "all", p)
 			add("numcpu=16", "all", p)
-			add("numcpu=2,sched=4", "all", p)
-			if pi%4 == 0 {
-				add("numcpu=4,sched=5", "all", p)
-				add("numcpu=4,sched=3", "early", p)
+			// scheduler decisions multiply the data dependent paths: pipelines whose closures branch on a, b are left out
+			if !strings.Contains(p, "accept(") && !strings.Contains(p, "throw(") && !strings.Contains(p, "present(") && !strings.Contains(p, "indexWhere(") {
+				add("numcpu=2,sched=4", "all", p)
+				if pi%4 == 0 {
+					add("numcpu=4,sched=5", "all", p)
+					add("numcpu=4,sched=3", "early", p)
+				}
 			}
 		} else if pi%5 == int(seed%5+5)%5 {
 			add("numcpu=2,sched=3", "all", p)
